@@ -2375,6 +2375,26 @@ def register(I):
     def string_as_str_(I, st, args, info):
         return umap(lambda x: string_as_str(x) if isinstance(x, StringV) else x, deref_all(I, args[0], st))
 
+    @reg("Vec::truncate")
+    def vec_truncate(I, st, args, info):
+        r = args[0]
+        cur = I.read_ref(r, st)
+        alts = []
+        for g, v in alts_of(cur):
+            L = len(v.items)
+            for gn, n in alts_of(args[1]):
+                gg = b_and(g, gn)
+                if gg is False:
+                    continue
+                if isinstance(n, int):
+                    alts.append((gg, VecV(v.items[:n]) if n < L else v))
+                else:
+                    for k in range(L):
+                        alts.append((b_and(gg, n == z3.BitVecVal(k, n.size())), VecV(v.items[:k])))
+                    alts.append((b_and(gg, z3.UGE(n, z3.BitVecVal(L, n.size()))), v))
+        I.write_cell(r.key, r.path, merge_many([(g, v) for g, v in alts if g is not False]), st)
+        return ()
+
     @reg("Vec::pop")
     def vec_pop(I, st, args, info):
         r = args[0]
